@@ -668,10 +668,7 @@ def same(c, m, i):
 
 
 def finding_key(c, m, i):
-    # OnDiskPsmDataset.calibrate_scores asks its reader for columns=<str>; the reader's type check rejects it
-    if i is not None and i[0] == "err" and i[1] == "TypeCheckError":
-        if c["fn"] == "ondisk" or (c["fn"] == "brew" and c.get("mode") == "reset"):
-            return KEY_ONDISK
+    # (the finding ondisk-calibrate:target-column-requested-as-str is repaired in /repo, 93b7f44: nothing is classified)
     return None
 
 
